@@ -69,3 +69,30 @@ pub fn macos_entry_words(pc: usize, target: usize) -> Vec<u32> {
 pub unsafe fn allocate_jit(src: usize, size: usize) -> *mut u8 {
     crate::injector_core::common::allocate_jit_memory(&fpi(src), size)
 }
+
+/// # Safety
+/// as for [`replace`]; `jit` need not be a mapping the allocator returned (the caller must then
+/// `mem::forget` the guard).
+#[cfg(feature = "priv_access")]
+pub unsafe fn arm64_apply_branch_patch(src: usize, jit: usize, size: usize, orig: &[u8]) -> Guard {
+    Guard(crate::injector_core::patch_arm64::__verif_access::apply(fpi(src), jit as *mut u8, size, orig))
+}
+
+/// # Safety
+/// as for [`arm64_apply_branch_patch`] (macOS branch of the entry encoder).
+#[cfg(feature = "priv_access")]
+pub unsafe fn arm64mac_apply_branch_patch(src: usize, jit: usize, size: usize, orig: &[u8]) -> Guard {
+    Guard(crate::patch_arm64_macsim::__verif_access::apply(fpi(src), jit as *mut u8, size, orig))
+}
+
+#[cfg(feature = "priv_access")]
+pub fn amd64_branch(ori: usize, target: usize) -> Vec<u8> {
+    crate::injector_core::patch_amd64::__verif_access::branch(ori, target)
+}
+
+/// # Safety
+/// as for [`arm64_apply_branch_patch`].
+#[cfg(feature = "priv_access")]
+pub unsafe fn amd64_patch_and_guard(src: usize, jit: usize, size: usize) -> Guard {
+    Guard(crate::injector_core::patch_amd64::__verif_access::patch(fpi(src), jit as *mut u8, size))
+}
